@@ -57,6 +57,8 @@ class Opts:
     min_ops: int = 1
     always_opid: bool = False
     self_ref: bool = True           # self reference through an array (imports fine, but cannot be decoded: F42)
+    defaults: bool = False          # `default` values on enum schemas and primitive properties
+    colliding_names: bool = False   # schema names that collide after class-casing / snake-casing (LineItem, line_item, Line-Item)
     ndjson: bool = False            # application/x-ndjson responses (parsed as SSE by the generated code: F43)
     enum_params: bool = True
     typed_headers: bool = False     # header parameters of non-string type (F39)
@@ -64,6 +66,24 @@ class Opts:
 
 
 def _prim(r: random.Random, o: Opts, allow_enum=True) -> dict:
+    s = _prim0(r, o, allow_enum)
+    if o.defaults and r.random() < 0.25:
+        t = s.get("type")
+        if "enum" in s:
+            safe = [v for v in s["enum"] if re.fullmatch(r"[A-Za-z][A-Za-z0-9 _-]*", v)]
+            cand = safe if o.mainstream else s["enum"]
+            if cand:
+                s["default"] = r.choice(cand)
+        elif t == "string" and "format" not in s:
+            s["default"] = r.choice(["x", "in-progress", "a b", ""])
+        elif t == "integer":
+            s["default"] = r.choice([0, 1, 10])
+        elif t == "boolean":
+            s["default"] = r.choice([True, False])
+    return s
+
+
+def _prim0(r: random.Random, o: Opts, allow_enum=True) -> dict:
     k = r.random()
     if k < 0.3:
         s: dict = {"type": "string"}
@@ -138,12 +158,24 @@ def gen_schemas(r: random.Random, o: Opts) -> dict:
         pool += PREFIX_NAMES
     n = r.randint(0 if o.no_ops else 1, o.max_schemas)
     names = r.sample(pool, min(n, len(pool)))
+    if o.colliding_names and names:
+        base = names[0]
+        snake = re.sub(r"([a-z])([A-Z])", r"\1_\2", base).lower()
+        variants = [snake, base + "2", snake + "_2", base.upper(), re.sub(r"([a-z])([A-Z])", r"\1-\2", base), base.lower()]
+        extra = [v for v in r.sample(variants, r.randint(1, 3)) if v not in names]
+        names = names[:1] + extra + names[1:]
     schemas: dict = {}
     for i, name in enumerate(names):
         earlier = names[:i]
         kind = r.random()
         if kind < 0.08 and o.enums:
             schemas[name] = {"type": "string", "enum": r.sample(["red", "green", "dark-blue", "N/A", "2x"], r.randint(1, 4))}
+            if o.defaults and r.random() < 0.7:
+                # F53: the default's member name is derived by upper()/-/space replacement only, unlike EnumGenerator's member names
+                safe = [v for v in schemas[name]["enum"] if re.fullmatch(r"[A-Za-z][A-Za-z0-9 _-]*", v)]
+                cand = safe if o.mainstream else schemas[name]["enum"]
+                if cand:
+                    schemas[name]["default"] = r.choice(cand)
             continue
         if kind < 0.13:
             schemas[name] = {"type": "array", "items": _ref(r.choice(earlier)) if earlier and r.random() < 0.6 else _prim(r, o, False)}
@@ -290,7 +322,7 @@ def gen_responses(r: random.Random, o: Opts, schemas: dict) -> dict:
                 content = {"text/plain": {"schema": {"type": "string"}}}
             resp[c] = {"description": f"status {c}", "content": content}
     if o.error_responses:
-        for c in r.sample(["400", "401", "403", "404", "409", "418", "422", "429", "500", "502", "503"], r.randint(0, 3)):
+        for c in r.sample(["400", "401", "403", "404", "409", "418", "422", "429", "500", "501", "502", "503"], r.randint(0, 3)):
             resp[c] = {"description": f"error {c}"}
             if r.random() < 0.3:
                 resp[c]["content"] = {"application/json": {"schema": {"type": "object", "properties": {"message": {"type": "string"}}}}}
